@@ -119,3 +119,22 @@ def cor_grid(prog, run, fi, f):
                        witness=f"{v!r}", file=f, node=n, config="method=cor")
     if not found:
         run.ob("O-grid", fi.qual, "cor grid spacing", None, "frequency-vector construction `arange(..) * factor` not found in SD_est", file=f)
+
+
+FD = "functions.fdd"
+MUTANTS = [
+    ("C13-m01 operands of the periodogram csd swapped", FD, "SD_est", "signal.csd(Yall.reshape(n_all, 1, Ndat), Yref.reshape(1, n_ref, Ndat), fs=1 / dt, nperseg=nxseg, noverlap=noverlap, window='hann')",
+     "signal.csd(Yref.reshape(1, n_ref, Ndat), Yall.reshape(n_all, 1, Ndat), fs=1 / dt, nperseg=nxseg, noverlap=noverlap, window='hann')"),
+    ("C13-m02 broadcast axes swapped", FD, "SD_est", "Yall.reshape(n_all, 1, Ndat)", "Yall.reshape(1, n_all, Ndat)", 1),
+    ("C13-m03 sampling frequency = dt", FD, "SD_est", "1 / dt", "dt", 2),
+    ("C13-m04 overlap ignored", FD, "SD_est", "noverlap = nxseg * pov", "noverlap = nxseg // 2"),
+    ("C13-m05 correlogram grid with the wrong spacing", FD, "SD_est", "np.arange(0, Sy.shape[2]) * (1 / dt / nxseg)", "np.arange(0, Sy.shape[2]) * (1 / dt / (2 * nxseg))"),
+    ("C13-m07 reference data squared", FD, "SD_est", "Yref.reshape(1, n_ref, Ndat)", "(Yref * Yref).reshape(1, n_ref, Ndat)", 2),
+    ("C13-m08 correlogram operands swapped", FD, "SD_est", "signal.csd(Yall.reshape(n_all, 1, Ndat), Yref.reshape(1, n_ref, Ndat), nperseg=nxseg // 2, nfft=nxseg, noverlap=0, window='boxcar')",
+     "signal.csd(Yref.reshape(1, n_ref, Ndat), Yall.reshape(n_all, 1, Ndat), nperseg=nxseg // 2, nfft=nxseg, noverlap=0, window='boxcar')"),
+]
+REWRITES = [
+    ("rename:C13-r01", FD, "SD_est", "noverlap", "n_over"),
+    ("C13-r02 newaxis instead of reshape", FD, "SD_est", "Yall.reshape(n_all, 1, Ndat)", "Yall[:, None, :]", 2),
+    ("C13-r03 grid spacing as one quotient", FD, "SD_est", "np.arange(0, Sy.shape[2]) * (1 / dt / nxseg)", "np.arange(0, Sy.shape[2]) * (1 / (dt * nxseg))"),
+]
